@@ -19,6 +19,11 @@ import sys
 import time
 import traceback
 
+# generators must depend on VERIF_SEED only: python randomises str/bytes hashes per process (set iteration order)
+if os.environ.get("PYTHONHASHSEED") != "0":
+    os.environ["PYTHONHASHSEED"] = "0"
+    os.execv(sys.executable, [sys.executable] + sys.argv)
+
 sys.path.insert(0, os.path.dirname(os.path.abspath(__file__)))
 from lib import core  # noqa: E402
 from lib.core import log  # noqa: E402
